@@ -303,6 +303,24 @@ class StartStageHandler(
                     stage.name,
                     stage.status,
                 )
+                if stage.status.is_halt:
+                    # The stage was halted before it could start (CancelRegion,
+                    # an external CancelStage). The upstream that just finished
+                    # pushed only this StartStage; without a CompleteWorkflow
+                    # nobody would ever finalize the workflow.
+                    with self.repository.transaction(self.queue) as txn:
+                        if message.message_id:
+                            txn.mark_message_processed(
+                                message_id=message.message_id,
+                                handler_type="StartStage",
+                                execution_id=message.execution_id,
+                            )
+                        txn.push_message(
+                            CompleteWorkflow(
+                                execution_type=message.execution_type,
+                                execution_id=message.execution_id,
+                            )
+                        )
                 return
 
         # Check if should skip - use transaction for atomicity
